@@ -8,6 +8,6 @@ CONSTANTS
   MaxEvents = 4
   MaxPerTick = 2
   DrainAfterQuit = TRUE
-  ShowBeforeStop = TRUE
-INVARIANTS NoticeShownAtCompletion DisplayedIsPartOfSent NothingLostWithoutCtrlO NoticesAlwaysDisplayed UnmutedAndUncancelledLosesNothing
+  AfterCancel = "queued"
+INVARIANTS BoundedAfterCancel NoticeShownAtCompletion DisplayedIsPartOfSent NothingLostWithoutCtrlO NoticesAlwaysDisplayed UnmutedAndUncancelledLosesNothing
 CHECK_DEADLOCK FALSE
